@@ -29,6 +29,7 @@
 // local sources
 #include "dbgroup/thread/epoch_guard.hpp"
 #include "dbgroup/thread/id_manager.hpp"
+#include "dbgroup/verif/hooks.hpp"
 
 namespace dbgroup::thread
 {
@@ -202,6 +203,7 @@ class EpochManager
       // go to the target node
       const auto upper_epoch = epoch & kUpperMask;
       while (node->upper_epoch_ > upper_epoch) {
+        DBGROUP_VERIF_POINT(kEpochLookupStep, node);
         node = node->next;
       }
 
